@@ -373,7 +373,7 @@ let arenax_line () =
 
 let keeps_arena_sync = ["ins"; "rem"; "remk"; "clear"; "remc"; "retain"; "getmut"; "viewmut";
                         "obs"; "q"; "shape"; "arena"; "arenax"; "iters"; "view"; "alg";
-                        "sins"; "srem"; "sremk"; "sremc"; "sclear"; "ssave"; "sretain"; "seq"; "sobs"; "sq"; "save"; "eq"]
+                        "sins"; "srem"; "sremk"; "sremc"; "sclear"; "ssave"; "sretain"; "seq"; "sobs"; "sshape"; "sviewat"; "sq"; "save"; "eq"]
 let exec (toks : string list) =
   (match toks with
    | op :: x :: _ when not (Stdlib.List.mem op keeps_arena_sync) && (x = "A" || (String.length x = 2 && String.contains x 'A')) -> aA := None
@@ -727,6 +727,20 @@ let exec (toks : string list) =
     mT := m'; add "ok"
   | ["seq"] ->
     add (pbool (Inst.t_map_eq ueq (root !mT) (root !sT)) ^ " " ^ pbool (Inst.t_map_eq ueq (root !sT) (root !mT)))
+  | ["sshape"] ->
+    let rec sshape (v : (pfx, unit) Views.view) : string =
+      let side = function None -> "." | Some v' -> sshape v' in
+      "(" ^ pp (Inst.t_v_prefix v) ^ " " ^ (match Views.v_value v with Some () -> "1" | None -> "-") ^ " "
+      ^ side (Inst.t_v_left !w v) ^ " " ^ side (Inst.t_v_right !w v) ^ ")" in
+    add (sshape (Views.view_of (root !mT)))
+  | ["sviewat"; p] ->
+    (match Inst.t_view_at !w !fl (root !mT) (parse_pfx p) with
+     | None -> add "none"
+     | Some v ->
+       let items = drop3 (Views.v_iter v) in
+       add ("pfx=" ^ pp (Inst.t_v_prefix v) ^ " val=" ^ pbool (Views.v_value v <> None)
+            ^ " keys=" ^ plist (fun (p, _) -> pp p) items
+            ^ " l=" ^ pbool (Inst.t_v_left !w v <> None) ^ " r=" ^ pbool (Inst.t_v_right !w v <> None)))
   | ["sobs"] ->
     let m = !mT in
     let it = drop3 (Inst.t_iter_items (root m)) and into = drop3 (Inst.t_into_iter_items (root m)) in
